@@ -1016,6 +1016,19 @@ impl std::ops::Deref for Core {
 	}
 }
 
+/// Releases the directory lock when `Core::new` bails out after the lock was taken.
+struct ReleaseLockOnFailedOpen(Option<Arc<CoreInner>>);
+
+impl Drop for ReleaseLockOnFailedOpen {
+	fn drop(&mut self) {
+		if let Some(inner) = self.0.take() {
+			if let Ok(mut lockfile) = inner.lockfile.lock() {
+				let _ = lockfile.release();
+			}
+		}
+	}
+}
+
 impl Core {
 	/// Replays WAL with configurable corruption handling.
 	///
@@ -1153,6 +1166,11 @@ impl Core {
 
 		let inner = Arc::new(CoreInner::new(Arc::clone(&opts))?);
 
+		// `CoreInner::new` has taken the directory lock. The background tasks spawned
+		// below keep `inner` alive, so if a later step fails nothing would ever drop
+		// the lock file: give the lock back explicitly on every early return.
+		let mut unlock_on_failure = ReleaseLockOnFailedOpen(Some(Arc::clone(&inner)));
+
 		// Create the write stall controller with the provider and thresholds
 		let thresholds = StallThresholds {
 			memtable_limit: opts.memtable_stall_threshold,
@@ -1286,6 +1304,7 @@ impl Core {
 
 		log::info!("=== LSM tree initialization complete ===");
 
+		unlock_on_failure.0 = None;
 		Ok(core)
 	}
 
